@@ -193,6 +193,67 @@ fn powers_apart() -> impl Strategy<Value = QCase> {
         })
 }
 
+/// Sums and differences of three to five terms: zero to two plain numbers in front, then quantities spelled
+/// differently for one dimension (the last one sometimes for another dimension).  The running total of such a
+/// chain changes its unit along the way (a plain number adopts the unit of the first quantity it meets).
+#[derive(Clone, Debug)]
+pub struct Chain {
+    pub plain: Vec<Lit>,
+    pub first: (Lit, USpell),
+    pub rest: Vec<(bool, Lit, USpell)>,
+    pub plain_last: Option<Lit>,
+}
+
+pub fn chain_expr(c: &Chain) -> Expr {
+    let mut terms: Vec<(bool, Expr)> = c.plain.iter().map(|l| (false, Expr::Num(l.clone()))).collect();
+    terms.push((false, Expr::Qty(c.first.0.clone(), c.first.1.clone())));
+    for (minus, l, u) in &c.rest {
+        terms.push((*minus, Expr::Qty(l.clone(), u.clone())));
+    }
+    if let Some(l) = &c.plain_last {
+        terms.push((false, Expr::Num(l.clone())));
+    }
+    let mut it = terms.into_iter();
+    let (_, mut e) = it.next().unwrap();
+    for (minus, t) in it {
+        e = Expr::bin(if minus { Op::Sub } else { Op::Add }, e, t);
+    }
+    e
+}
+
+pub fn chain() -> impl Strategy<Value = Chain> {
+    (prop::collection::vec(lit(), 0..=2), lit(), free_spelling(2, 2), prop::collection::vec((any::<bool>(), lit(), raw_spell(2, 2)), 1..=3), prop::option::weighted(0.2, (0usize..8, prop_oneof![Just(1i32), Just(-1)])), prop::option::weighted(0.2, lit()))
+        .prop_map(|(plain, x, u1, rest, perturb, plain_last)| {
+            let n = rest.len();
+            let rest: Vec<(bool, Lit, USpell)> = rest
+                .into_iter()
+                .enumerate()
+                .map(|(i, (minus, l, raw))| {
+                    let mut dim = u1.dim();
+                    if i + 1 == n {
+                        if let Some((k, d)) = perturb {
+                            dim[k] += d;
+                        }
+                    }
+                    (minus, l, build_spelling(&raw, &dim))
+                })
+                .collect();
+            Chain { plain, first: (x, u1), rest, plain_last }
+        })
+        .prop_filter("every spelling names a unit", |c| !c.first.1.factors.is_empty() && c.rest.iter().all(|(_, _, u)| !u.factors.is_empty()))
+}
+
+pub fn chain_case(c: &Chain) -> Option<QCase> {
+    let e = chain_expr(c);
+    let r = eval_ref(&e, &ObsEnv);
+    let expect = expect_of(&r, None)?;
+    let mut classes = vec!["sum-chain".to_string()];
+    if !c.plain.is_empty() {
+        classes.push("sum-chain-starting-with-plain-numbers".to_string());
+    }
+    Some(QCase { query: render_canonical(&e), expect, nontrivial: true, classes })
+}
+
 fn check(p: &Pair) -> CaseReport {
     match make_case(p) {
         Some(c) => judge(shared_db(), &c),
@@ -235,7 +296,7 @@ fn fixed_list() -> Vec<Pair> {
 }
 
 pub fn run_check(ctx: &Ctx) {
-    ctx.set_rule("pairs of unit spellings built for the same dimension vector (commensurable: free first spelling, second = random derived units + residual in base units) or for a perturbed/unrelated one (also one whose base powers differ by 128, 256, 65536 ...), in the forms x U1 + y U2, x U1 - y U2, x U1 to U2 and the plain-number forms x + y U, y U + x, x - y U, y U - x, x to U; oracle: success iff the reference dimension vectors (hand-written table) are equal, exact value x + y*s(U2)/s(U1), plain numbers adopt the unit in both orders; also with a computed left operand ((x A * z B) + y U, y U - (x A / z B), (x A * z B) to U) whose unit is whatever the tool reconstructed; non-trivial = the two spellings differ structurally or a plain-number form; distinct by query text");
+    ctx.set_rule("pairs of unit spellings built for the same dimension vector (commensurable: free first spelling, second = random derived units + residual in base units) or for a perturbed/unrelated one (also one whose base powers differ by 128, 256, 65536 ...), in the forms x U1 + y U2, x U1 - y U2, x U1 to U2 and the plain-number forms x + y U, y U + x, x - y U, y U - x, x to U; oracle: success iff the reference dimension vectors (hand-written table) are equal, exact value x + y*s(U2)/s(U1), plain numbers adopt the unit in both orders; also chains of three to five terms starting with zero to two plain numbers, and with a computed left operand ((x A * z B) + y U, y U - (x A / z B), (x A * z B) to U) whose unit is whatever the tool reconstructed; non-trivial = the two spellings differ structurally or a plain-number form; distinct by query text");
     ctx.assume("proportional units only; each unit at most once per spelling; words are restricted to those the tool reads as declared (C05 judges the rest)");
     let corpus: Vec<(String, QCase)> = load_corpus("C02");
     let cases: Vec<QCase> = corpus.into_iter().map(|c| c.1).collect();
@@ -245,6 +306,16 @@ pub fn run_check(ctx: &Ctx) {
     let n = ctx.tier.pick(150_000u64, 3_000_000);
     ctx.run_gen("generated", pair, n, check, |p| make_case(p).map(|c| to_json(&c)).unwrap_or(Value::Null));
     ctx.run_gen("powers-apart-by-a-power-of-two", powers_apart, n / 15, |c| judge(shared_db(), c), |c| to_json(c));
+    ctx.run_gen(
+        "sum-chains",
+        chain,
+        n / 6,
+        |c| match chain_case(c) {
+            Some(q) => judge(shared_db(), &q),
+            None => CaseReport::discard("", "reference-unspecified"),
+        },
+        |c| chain_case(c).map(|q| to_json(&q)).unwrap_or(Value::Null),
+    );
     ctx.run_gen("computed-operands", computed, n / 5, check_computed, |c| computed_case(c).map(|q| to_json(&q)).unwrap_or(Value::Null));
     let obs = observed();
     if !obs.failed.is_empty() {
